@@ -57,6 +57,12 @@ def oracle(ctx, seeds=None):
             r = gens.loguni(rng, 0.1, 10); p = gens.loguni(rng, 0.1, 10); M = float(rng.choice(machs))
             if model == 'nozzle':
                 M = 0.0       # nozzle at rest, any section law
+            if abs(M) > 1 and i % 3 == 0:
+                # a Mach sweep at fixed total conditions: the same (ptot, rttot) serve states of different static pressure
+                pt_, rt_ = float(rng.choice([2.0, 10.0])), float(rng.choice([1.0, 3.0]))
+                M = float(np.sign(M) * rng.choice([1.2, 1.7, 2.0, 2.6, 3.0]))
+                f_ = 1 + .5 * (g - 1) * M * M
+                p = pt_ / f_ ** (g / (g - 1)); r = p * f_ / rt_
             u = M * np.sqrt(g * p / r)
             W = (r, u, p)
             cfg['prim'] = [[r] * n, [u] * n, [p] * n]
@@ -124,6 +130,31 @@ def oracle(ctx, seeds=None):
                     res.fail('solve/%s:drift' % name, "uniform state changed by %r after 3 steps (%s, local=%r, bc %r)" %
                              (float(np.max(np.abs(np.asarray(out.data[k]) - np.asarray(f.data[k])))), model, local, bct), dict(cfg=cfg, integrator=name, local=local))
                     break
+    # ---- a sweep of supersonic uniform states at FIXED total conditions on one model object (same ptot, rttot; the static
+    #      pressure, hence the Mach number, changes from case to case; either flow direction)
+    for i in range(ctx.n(4, 40)):
+        g = gens.gamma(rng); pt_, rt_ = float(rng.choice([2.0, 10.0])), float(rng.choice([1.0, 3.0]))
+        for M in [float(x) for x in rng.permutation([1.2, 1.7, 2.2, 3.0, -1.4, -2.0, -2.8])[:5]]:
+            f_ = 1 + .5 * (g - 1) * M * M
+            p = pt_ / f_ ** (g / (g - 1)); r = p * f_ / rt_; u = M * np.sqrt(g * p / r)
+            n = int(rng.integers(2, 6))
+            cfg = cfg1d.rand_config(rng, model='euler', per=True, n=n, units=False)
+            cfg['gamma'] = g; cfg['prim'] = [[r] * n, [u] * n, [p] * n]
+            inl, outl = matching_bc('insup', g, (r, u, p), 0), matching_bc('outsup', g, (r, u, p), 0)
+            cfg['bcL'], cfg['bcR'] = (inl, outl) if M > 0 else (outl, inl)
+            ok, b_ = impl.guarded(cfg1d.build, cfg)
+            if not ok:
+                res.fail('build:raised', b_, dict(cfg=cfg)); continue
+            mod, msh, disc, f = b_
+            ok, r_ = impl.guarded(lambda: [np.array(x, dtype=float).copy() for x in disc.rhs(f)])
+            res.case(('mach-sweep', g, pt_, rt_, M))
+            if not ok:
+                res.fail('euler:rhs-raised', r_, dict(cfg=cfg)); continue
+            c = np.sqrt(g * p / r)
+            sc = (abs(u) + c) * max(r, r * (abs(u) + c), p / (g - 1) + r * u * u + p) / float(np.min(msh.vol()))
+            if not all(np.all(np.abs(x) <= 1e-10 * sc) for x in r_):
+                res.fail('euler:residual:insup-sweep', "uniform supersonic state M=%r with matching insup/outsup (ptot=%r rttot=%r, gamma=%r) in a sweep of Mach numbers at these total conditions: residual %r" %
+                         (M, pt_, rt_, g, max(float(np.max(np.abs(x))) for x in r_)), dict(cfg=cfg))
     # ---- 2D uniform states, any flow angle
     for i in range(ctx.n(40, 600)):
         cfg = cfg2d.rand_config2d(rng, per=(i % 2 == 0))
